@@ -12,7 +12,7 @@ P("C33",
              "real SerialEngine with and without an ID-eating hook. c33_heap_engine_invariant / c33_heap_engine_initial state the framework theorem on the "
              "heap engine of Lib/Engine (the C01/C02 model with the real binary heap, via C06/EngineBridge run_rel): engines built from "
              "NewSerialEngine by pointwise related Schedule calls stay related through Run. PARTIAL for library components: that their tracing call sites (NumHooks()>0 "
-             "paths, tracing registries) do not feed back into behaviour is shown only by the differential over 7 observer configurations.",
+             "paths, tracing registries) do not feed back into behaviour is shown only by the differential over 8 observer configurations on the memory assemblies and 6 on real networks (switches + endpoints under one-switch output-port contention, generic graphs, PCIe, NVLink hybrids, 2D/3D meshes: bare / component hooks / aggregate tracers / port hooks / engine hook / all).",
   level_note="Trusted: Coq kernel + vm_compute; Go harness (assemblies, fingerprints). Assumes observers touch the simulation only through the "
              "ID generator; components treat IDs opaquely (the script handler never branches on an ID).",
   assumptions=["observers interact with simulation state only by consuming IDs", "library components' hook-guarded paths are sampled, not proved"],
